@@ -185,6 +185,11 @@ Lookup(seq, name) == IF \E i \in 1..Len(seq) : seq[i].name = name
 \* `^` beyond the outermost input: the code falls back to the current input; the documentation does not say - Unspec
 UpInput(c, n) == IF n = 0 THEN c.input ELSE IF n <= Len(c.parents) THEN c.parents[n] ELSE Unspec
 
+\* a path through a synthesised object (members documented, their order not) still finds its members by name; the member found keeps its own kind,
+\* so what is unspecified about it (or inside it) stays marked and what is specified stays specified
+Shallow(v) == IF v.t = "uobj" THEN Obj(v.k, v.v) ELSE v
+RECURSIVE ExtractU(_, _, _)
+ExtractU(v, path, i) == IF i > Len(path) THEN v ELSE ExtractU(StepInto(Shallow(v), path[i]), path, i + 1)
 RECURSIVE Eval(_, _)
 RECURSIVE EvalCall(_, _, _)
 RECURSIVE MapOver(_, _, _, _)          \* values of e over a list of inputs
@@ -196,9 +201,7 @@ Eval(e, c) ==
   CASE e.op = "lit" -> e.v
     [] e.op = "none" -> Nothing
     [] e.op = "ext" -> LET base == UpInput(c, e.up) IN IF IsU(base) THEN Unspec ELSE
-                       LET r == Extract(Norm(base), e.path, 1) IN
-                       \* a path through a synthesised object still finds its members; the member it finds keeps its own kind
-                       IF e.path = <<>> THEN base ELSE IF HasUObj(base) /\ r # Nothing /\ r.t \in {"obj", "arr"} THEN Unspec ELSE r
+                       IF e.path = <<>> THEN base ELSE ExtractU(base, e.path, 1)
     [] e.op = "var" -> Lookup(c.vars, e.name).v
     [] e.op = "sel" -> Lookup(c.results, e.name).v
     \* the position of the record in the input is not part of this context (Run.tla has it): no meaning here
